@@ -4,6 +4,16 @@ import json, os
 VERIF = os.path.dirname(os.path.dirname(os.path.abspath(__file__)))
 ALL = ["C%02d" % i for i in range(1, 21)]
 CLAIMED = {
+ "C01": dict(
+   text="Partial proof + exploration. Proved in Coq for every n: the judge (executable commutator closure) is sound, complete and total w.r.t. the inductive closure Cl (closure_strs_spec/total, via the orbit lemma); the classifier's census/name arithmetic (Model/Star.v) with the snapshot's census refuted and the repaired one proved for stars of single legs. Per run: every leg-length vector up to a bound through Morph/Classification vs the model, and the implementation's name vs the invariants (centre, per component |C|, |Z_C|, degree) of the verified closure on exhaustive small, structured and uniform collections, n<=6 quick / n<=8 thorough.",
+   note="Not proved: canonical types B1/B2/B3 generate sp/so/su of the stated size and equal invariants imply isomorphism (classification theorem arXiv:2408.00081). MorphFactory is validated, not modelled. No axioms.",
+   technique="Coq-verified closure oracle as judge + code-shaped census model; differential exploration of the classifier",
+   design="6 C01"),
+ "C09": dict(
+   text="Proof (name arithmetic) + exploration. Proved for every list of canonical graphs: the repaired get_dla_dim equals the dimension of the reported name (C09_name); the snapshot's formula is refuted on its model. Per run: get_dla_dim vs |closure| from the verified oracle and vs the parsed name on the C01 input streams; synthetic Classification objects vs Model/Star.v.",
+   note="Equality with |closure| rests on C01 and is validated per input (n<=6 quick, <=8 thorough). No axioms.",
+   technique="Coq proof of dimension arithmetic + verified closure oracle as judge",
+   design="6 C09"),
  "C04": dict(
    text="Proof: Coq theorems C04_product/commute/adjoint/conj/reject hold for every n and every pair of strings, about a bit-level model of PauliString.sign/commutes_with/multiply/adjoint_map/complex_conj and the Kronecker-product matrices over Z[i]. The model is tied to /repo on every run by a correspondence run: all 16^n pairs n<=3 (n<=4 thorough) plus random pairs up to n=64 and all length mismatches, implementation vs extracted model, and numpy matrices multiplied out for n<=3.",
    note="Trusted: Coq kernel, extraction (ExtrOcamlBasic), OCaml driver, Python harness; numpy kron/@ taken as the matrices. No axioms (Print Assumptions: closed).",
